@@ -301,7 +301,8 @@ def default_name(ctx) -> None:
     ctx.rep.check(nonempty, rule, f"{f.qualname}/non-empty-only", "components are created only for wells with a non-zero initial volume",
                   "a component is created for wells whose initial volume is 0 (or skipped for filled wells)", where=w)
     # arrays are zeros
-    arrs = [n for n in (fv.cfg.nodes[i] for i in body) if n.kind == "stmt" and isinstance(n.ast, ast.Assign) and isinstance(n.ast.targets[0], ast.Subscript) and is_name(n.ast.targets[0].value, "composition")
+    dict_name = st.ast.targets[0].value.value.id if isinstance(st.ast.targets[0].value.value, ast.Name) else None
+    arrs = [n for n in (fv.cfg.nodes[i] for i in body) if n.kind == "stmt" and isinstance(n.ast, ast.Assign) and isinstance(n.ast.targets[0], ast.Subscript) and is_name(n.ast.targets[0].value, dict_name)
             and not isinstance(n.ast.targets[0].value, ast.Subscript)]
     okz = bool(arrs) and all(isinstance(n.ast.value, ast.Call) and call_fname(n.ast.value) in ("zeros_like", "zeros") for n in arrs)
     ctx.rep.check(okz, rule, f"{f.qualname}/zeros", "component arrays start as zeros", "a component array does not start as all-zero", where=w)
@@ -380,8 +381,13 @@ def trough_names(ctx) -> None:
     it = fv.res.resolve(lp.ast.iter, lp.id)
     ok_it = isinstance(it, ast.Call) and call_fname(it) == "enumerate" and isinstance(it.args[0], ast.Call) and call_fname(it.args[0]) == "zip" and [getattr(a, "id", None) for a in it.args[0].args] == ["column_names", "initial_volumes"]
     ctx.rep.check(ok_it, rule, f"{f.qualname}/iteration", "iterates enumerate(zip(column_names, initial_volumes))", f"iterates `{show(it)[:60]}`", where=f.where(lp.ast))
+    # the dict that is returned, the stores into it, and the variable holding the name that is stored
+    ret_names = {getattr(fv.alias_root(n.ast.value, n.id), "id", None) for n in fv.return_nodes()}
+    key_stores = [n for n in (fv.cfg.nodes[i] for i in body) if n.kind == "stmt" and isinstance(n.ast, ast.Assign) and isinstance(n.ast.targets[0], ast.Subscript) and isinstance(n.ast.targets[0].value, ast.Name)
+                  and n.ast.targets[0].value.id in ret_names]
+    name_var = key_stores[0].ast.value.id if len(key_stores) == 1 and isinstance(key_stores[0].ast.value, ast.Name) else None
     # default assignments inside the loop
-    defaults = [n for n in (fv.cfg.nodes[i] for i in body) if n.kind == "stmt" and isinstance(n.ast, ast.Assign) and is_name(n.ast.targets[0], "cname")]
+    defaults = [n for n in (fv.cfg.nodes[i] for i in body) if n.kind == "stmt" and isinstance(n.ast, ast.Assign) and is_name(n.ast.targets[0], name_var)]
     multi = [n for n in defaults if isinstance(n.ast.value, ast.JoinedStr)]
     single = [n for n in defaults if is_name(n.ast.value, "name")]
     ok = False
@@ -395,7 +401,7 @@ def trough_names(ctx) -> None:
     ctx.rep.check(ok, rule, f"{f.qualname}/default", "multi-column default name contains the column number; single-column default is the trough name",
                   "the default column names are not column-specific for multi-column troughs / not the trough name for a single column", where=f.where())
     # keys: A{c+1:02d}
-    keys = [n for n in (fv.cfg.nodes[i] for i in body) if n.kind == "stmt" and isinstance(n.ast, ast.Assign) and isinstance(n.ast.targets[0], ast.Subscript) and is_name(n.ast.targets[0].value, "component_names")]
+    keys = key_stores
     okk = False
     if len(keys) == 1 and isinstance(keys[0].ast.targets[0].slice, ast.JoinedStr):
         parts = template_parts(keys[0].ast.targets[0].slice)
